@@ -183,3 +183,11 @@ func verifC19Tables(n, shape, domLen, urlLen, srcLen, srcTail int) {
 		}
 	}
 }
+
+// verifRetrieveNetworkRuleAny serves the registry of the table harnesses or of the DNS harness.
+func verifRetrieveNetworkRuleAny(s *filterlist.RuleStorage, idx int64) *rules.NetworkRule {
+	if len(verifRegIdx) > 0 {
+		return verifRetrieveNetworkRule(s, idx)
+	}
+	return verifRetrieveNetworkRuleDNS(s, idx)
+}
